@@ -42,8 +42,8 @@ Section Check.
   Definition check_builtin (call : list aval -> aval -> option (list aval)) (b : builtin) (s : list aval)
     : option (list aval) :=
     match b, s with
-    | (B_gt | B_lt), x :: y :: r =>
-      if (is_aint x && is_aint y) || (is_astr x && is_astr y) then Some (AInt :: r) else None
+    | (B_gt | B_lt), x :: y :: r =>        (* integers only, as in BibTeX (Python would also compare strings) *)
+      if is_aint x && is_aint y then Some (AInt :: r) else None
     | B_eq, x :: y :: r =>
       if (is_aint x && is_aint y) || (is_astr x && is_astr y) then Some (AInt :: r) else None
     | B_concat, x :: y :: r => if is_astr x && is_astr y then Some (AStr :: r) else None
